@@ -43,45 +43,34 @@ def load_lentil():
 # --------------------------------------------------------------------------- known findings
 
 def load_findings(prop):
-    """Parse /verif/known_findings.txt -> (known, fixed) lists of dicts for this property."""
+    """Parse /verif/known_findings.txt -> (known, fixed) lists of dicts for this property.
+
+      known: property=<id> oracle=<o> sig=<json> replay=corpus/<f> :: <what fails>
+      fixed: property=<id> <commit> <what failed> :: oracle=<o> sig=<json> replay=corpus/<f>
+    """
     path = os.path.join(VERIF, 'known_findings.txt')
     known, fixed = [], []
     if not os.path.exists(path):
         return known, fixed
     for line in open(path):
         line = line.strip()
-        if not line or line.startswith('#'):
-            continue
         kind, _, rest = line.partition(':')
         kind = kind.strip()
-        if kind not in ('known', 'fixed'):
+        if kind not in ('known', 'fixed') or '::' not in rest:
             continue
-        head, _, tail = rest.partition('::')
-        if kind == 'fixed':
-            head, tail = tail, head   # fixed: property=<id> <commit> <what> :: oracle=.. sig=.. replay=..
-            what = tail.strip()
-            fields_src = head
-            pm = [t for t in what.split() if t.startswith('property=')]
-            p = pm[0].split('=', 1)[1] if pm else None
-        else:
-            what = tail.strip()
-            fields_src = head
-            pm = [t for t in head.split() if t.startswith('property=')]
-            p = pm[0].split('=', 1)[1] if pm else None
-        if p != prop:
+        left, _, right = rest.partition('::')
+        fields, what = (left, right) if kind == 'known' else (right, left)
+        toks = dict(t.split('=', 1) for t in (left.split() + right.split()) if '=' in t and t.split('=', 1)[0] in
+                    ('property', 'oracle', 'sig', 'replay'))
+        if toks.get('property') != prop or 'oracle' not in toks or 'sig' not in toks:
             continue
-        ent = {'what': what, 'property': p}
-        # oracle=<id> sig=<json without spaces> replay=<path>
-        for tok in fields_src.split():
-            if tok.startswith('oracle='):
-                ent['oracle'] = tok.split('=', 1)[1]
-            elif tok.startswith('sig='):
-                ent['sig'] = json.loads(tok.split('=', 1)[1])
-            elif tok.startswith('replay='):
-                ent['replay'] = tok.split('=', 1)[1]
-        if 'oracle' in ent and 'sig' in ent:
-            ent['key'] = vkey(ent['oracle'], ent['sig'])
-            (known if kind == 'known' else fixed).append(ent)
+        try:
+            sig = json.loads(toks['sig'])
+        except ValueError:
+            raise HarnessError('unparseable signature in known_findings.txt: %s' % line[:120])
+        ent = {'property': prop, 'oracle': toks['oracle'], 'sig': sig, 'replay': toks.get('replay'),
+               'what': what.strip(), 'key': vkey(toks['oracle'], sig)}
+        (known if kind == 'known' else fixed).append(ent)
     return known, fixed
 
 
